@@ -123,12 +123,55 @@ theorem C13_reconnect_waits (evs : List Ev) (s s' : CS) (h : runTrace init evs =
     exact hw h2
   · exact absurd rfl h1
 
-/-- … and it calls connect() only once: every further attempt is connect()'s own retry with its back-off delay -/
+/-- … and a call uses up that wait: right after a connect() call of the reconnect task, another one is not a behaviour of the
+model (every attempt inside a call is connect()'s own retry with its back-off delay; a further call needs a wait of its own,
+`C13_reconnect_waits_each`) -/
 theorem C13_reconnect_calls_once (s s' : CS) (h : step s .reconnCall = some s') : step s' .reconnCall = none := by
   obtain ⟨t, ht, rfl⟩ := L13.step_eq_some.1 h
   simp only [stepCore, L13.guard_eq_some] at ht
   obtain ⟨-, rfl⟩ := ht
   simp [L13.step_eq_none, stepCore, L13.guard_eq_none]
+
+/-- **Every connect() call of the reconnect task has its own wait**: in every accepted trace, between any two `reconnCall`s —
+in particular between two calls of one reconnect task (no `reconnStart` in between) — lies a `reconnSleep` of at least 500 ms -/
+theorem C13_reconnect_waits_each (evs : List Ev) (s : CS) (h : runTrace init evs = some s) (i j : Nat) (hij : i < j)
+    (hi : evs[i]? = some .reconnCall) (hj : evs[j]? = some .reconnCall) :
+    ∃ k ms, i < k ∧ k < j ∧ evs[k]? = some (.reconnSleep ms) ∧ 500 ≤ ms :=
+  L13.sleep_between_calls h hij hi hj
+
+/-- the one-step form: if one event separates two connect() calls of the reconnect task, that event is its wait -/
+theorem C13_reconnect_waits_each_step (s s1 s2 : CS) (e : Ev) (h1 : step s .reconnCall = some s1) (h2 : step s1 e = some s2)
+    (h3 : (step s2 .reconnCall).isSome) : ∃ ms, e = .reconnSleep ms ∧ 500 ≤ ms := by
+  obtain ⟨s3, h3⟩ := Option.isSome_iff_exists.1 h3
+  have a : s1.reconnSlept = false := by
+    rcases L13.step_reconn_frame h1 with ⟨h, -⟩ | ⟨_, h, -⟩ | ⟨h, -⟩ | ⟨-, -, -, -, h⟩ | ⟨-, -, -, h, -⟩
+    · cases h
+    · cases h
+    · cases h
+    · exact h
+    · exact absurd rfl h
+  have b : s2.reconnSlept = true := by
+    rcases L13.step_reconn_frame h3 with ⟨h, -⟩ | ⟨_, h, -⟩ | ⟨h, -⟩ | ⟨-, -, h, -⟩ | ⟨-, -, -, h, -⟩
+    · cases h
+    · cases h
+    · cases h
+    · exact h
+    · exact absurd rfl h
+  rcases L13.step_reconn_frame h2 with ⟨-, -, -, h⟩ | ⟨ms, rfl, h, -⟩ | ⟨-, -, -, h⟩ | ⟨-, -, -, -, h⟩ | ⟨-, -, -, -, -, h⟩
+  · rw [b] at h; cases h
+  · exact ⟨ms, rfl, h⟩
+  · rw [b, a] at h; cases h
+  · rw [b] at h; cases h
+  · rw [b, a] at h; cases h
+
+/-- a connect() that finds the client CONNECTED with nobody reading gives that link up before it connects again -/
+theorem C13_abandon_is_fault (s s' : CS) (c : Nat) (h : step s (.abandon c) = some s') :
+    s.st = .connected ∧ s.recv = none ∧ s.conn = some c ∧ c ∈ s'.faulted ∧ (∃ s'', step s' (.writerClose c) = some s'') := by
+  obtain ⟨t, ht, rfl⟩ := L13.step_eq_some.1 h
+  simp only [stepCore, L13.guard_eq_some, Bool.and_eq_true, decide_eq_true_eq, Option.isNone_iff_eq_none] at ht
+  obtain ⟨⟨⟨⟨⟨h1, h2⟩, h3⟩, -⟩, -⟩, rfl⟩ := ht
+  refine ⟨h1, h2, h3, by simp, ?_⟩
+  simp [step, stepCore, guard, h3]
 
 /-- a reconnect task is only ever started after a fault -/
 theorem C13_reconnect_after_fault (s s' : CS) (h : step s .reconnStart = some s') : s.faults > 0 := by
@@ -163,6 +206,25 @@ example : runTrace init [.connCall, .implStart, .implOk 1, .status .connected, .
 example : (runTrace init [.connCall, .implStart, .implOk 1, .status .connected, .connReturn, .recvStart 1, .envEof 1, .writerClose 1,
     .status .disconnected, .recvExit 1 false, .reconnStart, .reconnSleep 500, .reconnCall, .implStart, .implOk 2, .status .connected,
     .connReturn, .reconnEnd, .recvStart 2]).map (fun s => (s.st, s.reconn, s.conn)) = some (.connected, 0, some 2) := by decide +kernel
+
+-- the reconnect task calls connect() while another connect() holds the lock: the call returns at once, the task waits again and
+-- calls again; a second call without a wait of its own is not a behaviour of the model
+example : (runTrace init [.connCall, .implStart, .implOk 1, .status .connected, .connReturn, .recvStart 1, .envEof 1, .writerClose 1,
+    .status .disconnected, .recvExit 1 false, .reconnStart, .connCall, .implStart, .reconnSleep 500, .reconnCall, .connReturn,
+    .reconnSleep 500, .reconnCall, .connReturn, .implOk 2, .status .connected, .connReturn, .reconnEnd, .recvStart 2]).map
+    (fun s => (s.st, s.reconn, s.conn, s.calls)) = some (.connected, 0, some 2, 0) := by decide +kernel
+example : runTrace init [.connCall, .implStart, .implOk 1, .status .connected, .connReturn, .recvStart 1, .envEof 1, .writerClose 1,
+    .status .disconnected, .recvExit 1 false, .reconnStart, .connCall, .implStart, .reconnSleep 500, .reconnCall, .connReturn,
+    .reconnCall] = none := by decide +kernel
+-- a connect() cancelled after CONNECTED was reported and before its receive task exists: the next connect() gives the link up
+-- (fault, shut, DISCONNECTED) and only then connects; attempting while that link is still reported CONNECTED is not a behaviour
+example : (runTrace init [.connCall, .implStart, .implOk 1, .status .connected, .connCancel, .connCall, .abandon 1, .writerClose 1,
+    .status .disconnected, .implStart, .implOk 2, .status .connected, .connReturn, .recvStart 2]).map
+    (fun s => (s.st, s.conn, s.recv, s.writerClosed, s.statusLog)) =
+    some (.connected, some 2, some 2, [1], [.connected, .disconnected, .connected]) := by decide +kernel
+example : runTrace init [.connCall, .implStart, .implOk 1, .status .connected, .connCancel, .connCall, .implStart] = none := by decide +kernel
+example : runTrace init [.connCall, .implStart, .implOk 1, .status .connected, .connCancel, .connCall, .abandon 1, .implStart] = none := by
+  decide +kernel
 
 -- non-vacuity: three refusals then success from the initial state
 example : (runTrace init (recoveryTrace 3 1)).map (fun s => (s.st, s.recv, s.statusLog)) = some (.connected, some 1, [.connected]) := by decide +kernel
